@@ -61,7 +61,10 @@ func runFlowCase(c *vf.Ctx, fc *flowCase) *flowResult {
 	dir := filepath.Join(c.WorkDir, fmt.Sprintf("case-%d", fc.Index))
 	res.dir = dir
 	if _, _, err := compileProgram(p, filepath.Join(dir, "compile")); err != nil {
-		res.rejected = strings.Split(err.Error(), "\n")[0]
+		res.rejected = strings.Split(strings.TrimSpace(err.Error()), "\n")[0]
+		if res.rejected == "" {
+			res.rejected = "rejected"
+		}
 		os.RemoveAll(dir)
 		return res
 	}
